@@ -2,6 +2,7 @@ package harness
 
 import (
 	"fmt"
+	"net/http"
 	"sort"
 	"strconv"
 	"strings"
@@ -23,6 +24,12 @@ type C03Case struct {
 	Rewriting []int `json:"rewriting,omitempty"`
 	// Via selects the history through which the middleware reaches the state (Cfg, Debug); see mkMWVia.
 	Via int `json:"via,omitempty"`
+	// Passes > 0: the batch is served that many more times, one after the other (the 300th, 5000th, 70000th request
+	// through the same middleware). Servers > 1: that many handlers are wrapped by the one middleware and take turns.
+	// WrapEach: Wrap is called anew for every request instead (the k-th Wrap call).
+	Passes   int  `json:"passes,omitempty"`
+	Servers  int  `json:"servers,omitempty"`
+	WrapEach bool `json:"wrap_each,omitempty"`
 }
 
 func (c C03Case) Brief() any {
@@ -324,6 +331,18 @@ func c03Gen(t *rapid.T) C03Case {
 			c.Rewriting = append(c.Rewriting, i)
 		}
 	}
+	if chance(t, "manyrequests", 3) {
+		// the n-th time: total request counts around 2^8, 2^10, 2^12 and (rarely) 2^16
+		total := pick(t, "totalreqs", []int{130, 260, 300, 520, 1030, 1100, 4100})
+		if chance(t, "hugetotal", 4) {
+			total = 66000
+		}
+		c.Passes = total / n
+		c.WrapEach = chance(t, "wrapeach", 35)
+	}
+	if !c.WrapEach && chance(t, "manyservers", 6) {
+		c.Servers = pick(t, "nservers", []int{2, 3, 9, 17, 33, 70, 130, 260})
+	}
 	return c
 }
 
@@ -344,9 +363,26 @@ func c03Check(c C03Case, rec *Recorder) *Disc {
 	}
 	model := NewOriginModel(c.Cfg.Origins)
 	var kf *Disc
-	wrap := oneWrap(m.Wrap) // the whole batch through one wrapped handler
-	for ri, r := range c.Reqs {
-		if ri == len(c.Reqs)/2 {
+	// the whole batch through one wrapped handler - or through several handlers wrapped by the one middleware, taking
+	// turns - or through a handler wrapped anew for every request
+	wraps := []func(http.Handler) http.Handler{oneWrap(m.Wrap)}
+	for i := 1; i < c.Servers && i < 300; i++ {
+		wraps = append(wraps, oneWrap(m.Wrap))
+	}
+	if c.WrapEach {
+		wraps = []func(http.Handler) http.Handler{m.Wrap}
+	}
+	if c.Passes > 0 {
+		rec.Class("many-requests")
+	}
+	if len(wraps) > 1 {
+		rec.Class("several-wrapped-handlers")
+	}
+	nreq := len(c.Reqs) * (1 + min(c.Passes, 20000))
+	for k := 0; k < nreq; k++ {
+		ri, r := k%len(c.Reqs), c.Reqs[k%len(c.Reqs)]
+		wrap := wraps[k%len(wraps)]
+		if k == len(c.Reqs)/2 {
 			m.Config() // an observer, called in the middle of the batch
 		}
 		if contains(intStrs(c.Rewriting), fmt.Sprint(ri)) {
@@ -369,7 +405,7 @@ func c03Check(c C03Case, rec *Recorder) *Disc {
 		default:
 			rec.Class("origin-near-miss-or-unrelated")
 		}
-		if hasOrigin && (!wf || !model.DenotedBy(origin) || len(vs) > 1) || (isPreflight(r) && c.Cfg.Credentialed) {
+		if k < len(c.Reqs) && (hasOrigin && (!wf || !model.DenotedBy(origin) || len(vs) > 1) || (isPreflight(r) && c.Cfg.Credentialed)) {
 			rec.NonTrivialHash(h64(fmt.Sprintf("%+v|%v", c.Cfg, c.Debug), r.Brief()))
 		}
 		if _, ok := resp.Hdr[hACAO]; ok {
@@ -392,7 +428,7 @@ func c03Check(c C03Case, rec *Recorder) *Disc {
 
 func c03Prop() Prop[C03Case] {
 	return Prop[C03Case]{ID: "C03", Gen: c03Gen, Check: c03Check,
-		Rule: "generator: the middleware reaches its state through one of six histories documented as equivalent (NewMiddleware; zero value + Reconfigure; SetDebug(true), Reconfigure(nil), Reconfigure(c); Reconfigure from another configuration with the opposite debug mode; Reconfigure(Config()); after a rejected Reconfigure); valid configuration (all switches, origin kinds incl. allow-all, method/header/response-header lists, max-age, status; 12% of cases instead a configuration with exactly one documented violation, which is judged only if the library accepts it) x debug x batch of 4-24 arbitrary requests " +
+		Rule: "generator: the middleware reaches its state through one of six histories documented as equivalent (NewMiddleware; zero value + Reconfigure; SetDebug(true), Reconfigure(nil), Reconfigure(c); Reconfigure from another configuration with the opposite debug mode; Reconfigure(Config()); after a rejected Reconfigure); valid configuration (all switches, origin kinds incl. allow-all, method/header/response-header lists, max-age, status; 12% of cases instead a configuration with exactly one documented violation, which is judged only if the library accepts it) x debug x batch of 4-24 arbitrary requests (3%: the batch served again and again up to 130-4100, rarely 66000 requests in all, through one wrapped handler or with Wrap called anew each time; 6%: 2-260 handlers wrapped by the one middleware taking turns) " +
 			"(any method; Origin/ACRM/ACRH/ACRPN absent, zero-valued, single, multi-valued; values from config-derived pools: allowed, near-miss, 34 malformations incl. upper case, userinfo, path/query/fragment, " +
 			"bracketed non-IP host, unmatched bracket, leading-zero/6-digit/zero/65536 port, NUL, non-ASCII, null, empty, 1KiB-1MiB values, junk bytes). evaluations = responses checked against the five invariants. " +
 			"non-trivial = request whose Origin is present and malformed, a near-miss or multi-valued, or a preflight under a credentialed configuration; distinct by (configuration, debug, request).",
